@@ -73,17 +73,17 @@ def andScan : Nat → Str → Bool
 
 def andFree (x : Str) : Bool := andScan 0 (x ++ [' '])
 
-def personOkW (p : Person) : Bool :=
-  WFPerson p && (personTokens p).all Safe && andFree (formatName p)
+def personOkW (p : Person) : Bool := WFPerson p && andFree (formatName p)
 
 /-! ### databases: the BibTeX domain -/
 
-/-- roles: person-field names, distinct up to case, each with a non-empty list of good persons -/
+/-- roles: person-field names, distinct up to case, each with a non-empty list of good persons whose
+written name list is a good value (white-space-normalised also inside braces, free of `# % & _ ~`) -/
 def rolesOkW : List Str → List (Str × List Person) → Bool
   | _, [] => true
   | seen, r :: rs =>
     isName r.1 && isPersonField r.1 && !seen.contains (lower r.1) && r.2 ≠ [] && r.2.all personOkW &&
-    rolesOkW (lower r.1 :: seen) rs
+    valueOkW (formatNames r.2) && rolesOkW (lower r.1 :: seen) rs
 
 /-- fields: NAMEs that are not person fields, distinct up to case, good values -/
 def fieldsOkW : List Str → List (Str × Str) → Bool
